@@ -442,6 +442,7 @@ func init() {
 		c.runHeaderSemicolon(r, "parse.headersemi", "wgsl/internal/parser")
 		c.runTemplateClose(r, "template.close", "wgsl/internal/parser")
 		c.runHelperDedupScope(r, "helper.dedupscope", all)
+		c.runImageCoordMerge(r, "image.coordmerge", "hlsl/internal/codegen")
 		cnt := map[string]int{}
 		for _, o := range r.Obs {
 			if o.Verdict == "ok" || o.Verdict == "trivial" {
@@ -633,4 +634,82 @@ func (c *Ctx) runHelperDedupScope(r *Report, rule string, pkgs func(string) bool
 		})
 	}
 	r.inst("helper.dedupscope", n)
+}
+
+// image.coordmerge (C03): HLSL addresses a texel of an arrayed texture with ONE
+// vector subscript, tex[int3(xy, layer)]. A function of the HLSL writer that
+// writes the ArrayIndex operand of an image statement / expression must compose
+// it with the coordinate in a vector constructor (a literal spelling "%d(", or
+// the coordinate helper that does so); written as a second, comma-separated
+// subscript operand (tex[xy, layer]) the comma is the C comma operator and the
+// subscript is the layer alone.
+func (c *Ctx) runImageCoordMerge(r *Report, rule string, pkg string) {
+	n := 0
+	// the helper(s): functions with an arrayIndex *ExpressionHandle parameter that emit a "%d(" constructor
+	helpers := map[*types.Func]bool{}
+	hasCtor := func(fi *funcInfo) bool {
+		found := false
+		ast.Inspect(fi.Decl.Body, func(k ast.Node) bool {
+			if bl, ok := k.(*ast.BasicLit); ok && bl.Kind == token.STRING && strings.Contains(bl.Value, "%d(") {
+				found = true
+			}
+			return !found
+		})
+		return found
+	}
+	for _, fn := range c.allFuncs() {
+		if fn.Pkg.Rel == pkg && fn.Obj != nil && hasCtor(fn) {
+			sig := fn.Obj.Type().(*types.Signature)
+			for i := 0; i < sig.Params().Len(); i++ {
+				if p, ok := sig.Params().At(i).Type().(*types.Pointer); ok && irTypeName(p.Elem()) == "ExpressionHandle" {
+					helpers[fn.Obj] = true
+				}
+			}
+		}
+	}
+	for _, fn := range c.allFuncs() {
+		if fn.Pkg.Rel != pkg || fn.Obj == nil || helpers[fn.Obj] {
+			continue
+		}
+		info := fn.Pkg.Info
+		// writes *X.ArrayIndex directly?
+		var site ast.Node
+		usesHelper := false
+		ast.Inspect(fn.Decl.Body, func(k ast.Node) bool {
+			call, ok := k.(*ast.CallExpr)
+			if !ok {
+				return true
+			}
+			if f := calleeOf(info, call); f != nil && helpers[f.Origin()] {
+				usesHelper = true
+			}
+			isWriter := false
+			if f := calleeOf(info, call); f != nil {
+				sg := f.Type().(*types.Signature)
+				isWriter = sg.Params().Len() == 1 && sg.Results().Len() == 1 && irTypeName(sg.Params().At(0).Type()) == "ExpressionHandle" && sg.Results().At(0).Type().String() == "error"
+			}
+			for _, a := range call.Args {
+				if !isWriter {
+					break
+				}
+				if st, ok := ast.Unparen(a).(*ast.StarExpr); ok {
+					if se, ok := ast.Unparen(st.X).(*ast.SelectorExpr); ok && se.Sel.Name == "ArrayIndex" && site == nil {
+						site = call
+					}
+				}
+			}
+			return true
+		})
+		if site == nil {
+			continue
+		}
+		n++
+		cons := fn.id() + ":ArrayIndex"
+		if hasCtor(fn) || usesHelper {
+			r.ok(rule, cons, c.pos(site.Pos()), "")
+		} else {
+			r.viol(rule, cons, c.pos(site.Pos()), fn.id()+" writes the array index of an arrayed texture as a separate, comma-separated subscript operand instead of composing intN(coordinate, layer): in HLSL tex[a, b] is tex[b]")
+		}
+	}
+	r.inst("image.coordmerge", n)
 }
